@@ -137,9 +137,19 @@ func c06shape(s *sim.Sim, y *c06sys, rt c06route, r *c06req) {
 		r.shape = "lowercase-scheme"
 		set("Authorization", "bearer "+valid)
 	default:
-		r.shape = "truncated-credential"
-		if len(valid) > 2 {
-			set("Authorization", "Bearer "+valid[:len(valid)-1])
+		if parts := strings.Split(valid, ","); len(parts) > 1 && s.Choose(sim.SWork, 2) == 0 {
+			// one comma-separated piece of the configured credential
+			r.shape = "credential-fragment"
+			piece := strings.TrimSpace(parts[s.Choose(sim.SWork, len(parts))])
+			if piece == "" {
+				piece = "anything-at-all"
+			}
+			set("Authorization", "Bearer "+piece)
+		} else {
+			r.shape = "truncated-credential"
+			if len(valid) > 2 {
+				set("Authorization", "Bearer "+valid[:len(valid)-1])
+			}
 		}
 	}
 	// forged forwarding headers ride along on any request
@@ -169,6 +179,9 @@ func c06shape(s *sim.Sim, y *c06sys, rt c06route, r *c06req) {
 func c06peer(v6 bool, client int, port int) string {
 	if v6 {
 		return fmt.Sprintf("[2001:db8::%x]:%d", client+1, port)
+	}
+	if client >= 250 {
+		return fmt.Sprintf("10.%d.%d.%d:%d", 1+(client>>16)&255, (client>>8)&255, client&255, port)
 	}
 	return fmt.Sprintf("10.0.1.%d:%d", client+1, port)
 }
@@ -213,7 +226,9 @@ func c06build(s *sim.Sim, p *sim.Params) *c06sys {
 		return y
 	}
 	y.cfg = server.DefaultAuthRateLimitConfig()
-	jwt := []string{"s3cr3t-jwt-XYZ", "s3cr3t-jwt-XYZ", "", "   "}[s.Choose(sim.SWork, 4)]
+	// set, unset, blank, made of separators only (two variables that were meant to be joined and are
+	// both unset), or one secret that happens to contain a comma
+	jwt := []string{"s3cr3t-jwt-XYZ", "s3cr3t-jwt-XYZ", "", "   ", ",", " , ,", "alpha-s3,beta-s3", "s3cr3t-jwt-XYZ"}[s.Choose(sim.SWork, 8)]
 	keys := []string{"key-one, key-two", "key-one, key-two", "", " , "}[s.Choose(sim.SWork, 4)]
 	os.Setenv(envJWTSecret, jwt)
 	os.Setenv(envAPIKeys, keys)
@@ -276,6 +291,29 @@ func c06Run(s *sim.Sim, p *sim.Params) {
 		hist = append(hist, r)
 		y.do(r)
 		r.ret = s.Stamp()
+	}
+	// "table pressure" runs: more distinct clients than the failure table is meant to hold send one
+	// bad request each before the workload starts (nobody comes near a lockout), so the clients of
+	// the workload meet a table at capacity
+	if s.Choose(sim.SWork, 25) == 0 {
+		s.Probe("failure-table-pressure-run")
+		var jwtRoute c06route
+		for _, rt := range routes {
+			if rt.kind == "jwt" {
+				jwtRoute = rt
+			}
+		}
+		for k := 0; k < 10050; k++ {
+			r := &c06req{client: 1000 + k, route: jwtRoute, shape: "wrong-credential", badCred: true}
+			r.hdr = [][2]string{{"Authorization", fmt.Sprintf("Bearer nope-%d", k)}}
+			r.at = s.Now()
+			r.call = s.Stamp()
+			y.do(r)
+			r.ret = s.Stamp()
+			if k%500 == 0 {
+				hist = append(hist, r) // a sample of them is judged like any other request
+			}
+		}
 	}
 	var hs []*sim.Handle
 	for ci := 0; ci < nclients; ci++ {
